@@ -104,35 +104,34 @@ theorem field_errors_under_key (env : Env) (node : Nat) (ty : String) (d : Nat) 
             · exact hrep _ e he
             · exact prefixErrs_path _ _ e he
 
-/-- **C01_typename.**  `__typename` yields the name of the type the selections are walked at. -/
+/-- **C01_typename.**  `__typename` yields `typeNameOf` of the node at the position's type. -/
 theorem typename_walked (env : Env) (node : Nat) (ty : String) (d : Nat)
     (res : List (String × J)) (al : String) (args : List ArgVal) (sels : List Sel) :
     (rSel env node ty d res (.field al "__typename" args [] sels)).1 =
-      setKey res (if al.isEmpty then "__typename" else al) (.str ty) := by
+      setKey res (if al.isEmpty then "__typename" else al) (.str (typeNameOf env node ty)) := by
   simp [rSel, Skip.skipSel]
 
-/-- as coded at first (D14): the selections of an interface-typed field are walked at the interface -/
-theorem dynTy_static (env : Env) (h : env.cfg.condByIdentity = true) (node : Nat) (ty : String) :
-    dynTy env node ty = ty := by
-  simp [dynTy, h]
+/-- as coded at first (D14): the name of the position's type, the interface under an interface-typed field -/
+theorem typeName_static (env : Env) (h : env.cfg.condByIdentity = true) (node : Nat) (ty : String) :
+    typeNameOf env node ty = ty := by
+  simp [typeNameOf, h]
 
-/-- **C08_typename (repaired configuration).**  With `condByIdentity` off the selections of an interface-typed
-field (and with them `__typename`, `typename_walked`) are walked at the object type the node's Go type is bound
-to, when that type implements the interface. -/
-theorem dynTy_concrete (env : Env) (h : env.cfg.condByIdentity = false) (node : Nat) (ty : String) (n : Node)
+/-- at an object-typed position the name is that type's, in both configurations -/
+theorem typeName_object (env : Env) (node : Nat) (ty : String) (onm : String) (fs : List FieldDef) (ifs : List String)
+    (ho : env.schema.find ty = some (.object onm fs ifs)) : typeNameOf env node ty = ty := by
+  unfold typeNameOf
+  split
+  · rfl
+  · simp [objectTypeOf, ho]
+
+/-- **C08_typename (repaired configuration).**  With `condByIdentity` off, at an interface-typed position the name
+is that of the object type the node's Go type is bound to, when that type implements the interface. -/
+theorem typeName_concrete (env : Env) (h : env.cfg.condByIdentity = false) (node : Nat) (ty : String) (n : Node)
     (hn : env.graph[node]? = some n) (inm : String) (ifs0 : List FieldDef) (hi : env.schema.find ty = some (.iface inm ifs0))
     (onm : String) (fs : List FieldDef) (ifs : List String)
     (ho : env.schema.find n.goType = some (.object onm fs ifs)) (himp : ifs.contains ty = true) :
-    dynTy env node ty = n.goType := by
+    typeNameOf env node ty = n.goType := by
   have hm : ty ∈ ifs := by simpa using himp
-  simp [dynTy, h, hn, hi, ho, hm]
-
-/-- an object-typed position is walked at its declared type in both configurations -/
-theorem dynTy_object (env : Env) (node : Nat) (ty : String) (onm : String) (fs : List FieldDef) (ifs : List String)
-    (ho : env.schema.find ty = some (.object onm fs ifs)) : dynTy env node ty = ty := by
-  unfold dynTy
-  split
-  · rfl
-  · simp [ho]
+  simp [typeNameOf, objectTypeOf, h, hn, hi, ho, hm]
 
 end Ggql.Walk
